@@ -48,6 +48,11 @@ pub fn name_pool_c03() -> Vec<(&'static str, Shape)> {
         ("test:r/k", Shape::inst(&[("a", Shape::F0), ("h", Shape::F1)])),
         ("test:r/k@0.0.3", a()),
         ("test:r/k@0.0.4", a()),
+        // one name with two incompatible types (a package takes one of them): merge conflicts
+        ("m", Shape::F0),
+        ("m", Shape::F1),
+        ("test:s/m@1.0.0", a()),
+        ("test:s/m@1.1.0", Shape::inst(&[("a", Shape::F1)])),
     ]
 }
 
@@ -108,7 +113,13 @@ pub fn build_library_from(rng: &mut Rng, n_wat: usize, with_wit: bool, imports: 
         let ni = pick_weighted(rng, &[2, 3, 4, 3, 2]);
         let mut idx: Vec<usize> = (0..imports.len()).collect();
         rng.shuffle(&mut idx);
-        for k in idx.into_iter().take(ni) {
+        for k in idx.into_iter() {
+            if imps.len() >= ni {
+                break;
+            }
+            if imps.iter().any(|(n, _)| n == imports[k].0) {
+                continue;
+            }
             imps.push((imports[k].0.to_string(), imports[k].1.clone()));
         }
         let ne = 1 + rng.below(4);
